@@ -68,10 +68,52 @@ def cases(rng, tier):
     for c in allc:
         if c["grant"] in ("authorization_code", "device_code") and len(tr) < (400 if tier == "quick" else 4000):
             tr.append(dict(c, token_scope=rng.choice(["a", "a b", "z", "a b c d"])))
-    return allc + warm + tr
+    # histories on ONE provider: tokens issued by the password grant and refreshed (any token issued so far, also one that was already refreshed),
+    # while the server's supported scopes and the client's allowed scope change between requests
+    hist = []
+    hs = ["a", "b", "a b", "b a", "a b c", "a b c d", "c", "d c", "z", "a z", "", None]
+    for _ in range(60 if tier == "quick" else 1500):
+        ops, issued = [], 0
+        gen = rng.choice(["bearer", "bearer", "jwt9068"])
+        for _ in range(rng.randrange(2, 9)):
+            cfgd = {"gen": gen, "supported": rng.choice([None, None, ["a", "b", "c", "d"], ["a", "b"], ["a", "b", "c", "d", "z"]]), "allowed": rng.choice(["a b c d", "a b c d", "a b c", "b c d z", "a"])}
+            if issued == 0 or rng.random() < 0.25:
+                ops.append(dict(cfgd, op="issue", requested=rng.choice(hs[:8] + ["a b c d"] * 3)))
+            else:
+                ops.append(dict(cfgd, op="refresh", idx=rng.randrange(0, issued + 1), requested=rng.choice(hs)))
+            issued += 1          # (an upper bound: refused requests issue nothing; out-of-range references are part of the test)
+        hist.append({"grant": "history", "gen": gen, "ops": ops, "requested": "history", "original": None, "supported": None, "allowed": ""})
+    return allc + warm + tr + hist
+
+
+def impl_history(c):
+    store, srv, rp = ms.build(scopes_supported=None, oidc=False)
+    _install_generator(srv, store, c["gen"])
+    store.clients["c1"] = Client("c1", "s1", ["https://c1/cb"], "a b c d", ms.ALL_GRANT_TYPES, ms.ALL_RESPONSE_TYPES)
+    hdr = ms.basic("c1", "s1")
+    rts, steps = [], []
+    for op in c["ops"]:
+        srv.scopes_supported = op["supported"]
+        store.clients["c1"].set_client_metadata(dict(store.clients["c1"].client_metadata, scope=op["allowed"]))
+        sc = {} if op["requested"] is None else {"scope": op["requested"]}
+        if op["op"] == "issue":
+            form = dict(grant_type="password", username="1", password="pw", **sc)
+        else:
+            form = dict(grant_type="refresh_token", refresh_token=rts[op["idx"]] if op["idx"] < len(rts) else "no-such-token", **sc)
+        r = srv.create_token_response(Req("POST", "https://as.example/token", form=form, headers=hdr))
+        body = r.body
+        if "error" in body:
+            steps.append({"error": body["error"]})
+        else:
+            rts.append(body.get("refresh_token"))
+            steps.append(_result(c, body))
+    live = [not t.refresh_token_revoked_at for t in store.tokens]
+    return {"steps": steps, "live": live, "_refresh_tokens": [bool(x) for x in rts]}
 
 
 def model_line(c):
+    if c["grant"] == "history":
+        return {"ops": c["ops"]}
     return {"kind": GRANTS[c["grant"]], "gen": c["gen"], "supported": c["supported"], "allowed": c["allowed"],
             "requested": c["requested"], "original": c["original"]}
 
@@ -92,7 +134,7 @@ def _install_generator(srv, store, gen):
         class G(G9068):
             def get_jwks(self):
                 return OctKey.import_key(b"k" * 32, {"kid": "k1"})
-        g = G(issuer="https://as.example", alg="HS256")
+        g = G(issuer="https://as.example", alg="HS256", refresh_token_generator=lambda **kw: store.nxt("rt"))
         srv.register_token_generator("default", g)
 
 
@@ -180,6 +222,8 @@ def impl_one(c, framework=None):
 
 def impl(c):
     """the core server, and the same request through the Flask and Django integrations (scopes_supported comes from their configuration)"""
+    if c["grant"] == "history":
+        return impl_history(c)
     base = impl_one(c)
     out = dict(base)
     # (query and form carrying DIFFERENT values of one parameter is read differently by Flask — query first — and by the core / Django
@@ -196,7 +240,48 @@ def W(s):
     return set(s.split()) if s else set()
 
 
+def oracle_history(c, out):
+    """the statement over the history: every refresh keeps or narrows the scope of the token it refreshes (hence of the chain's first token); a refresh token is good once"""
+    v = []
+    toks = []          # (response scope words, live)
+    for op, st in zip(c["ops"], out["steps"]):
+        sig = {"grant": "history", "gen": c["gen"], "op": op["op"]}
+        if op["op"] == "issue":
+            if "error" in st:
+                if st["error"] != "invalid_scope" or not (op["requested"] and op["supported"] and not set(op["supported"]) >= W(op["requested"])):
+                    v.append((f"history: token request {op} refused with {st}", dict(sig, kind="spurious-invalid-scope")))
+                continue
+            lim = W(op["requested"]) & W(op["allowed"]) & (set(op["supported"]) if op["supported"] else W(op["requested"]))
+            for side in ("response", "embedded"):
+                if st[side] is not None and not W(st[side]) <= lim:
+                    v.append((f"history: {side} scope {st[side]!r} of {op} exceeds {sorted(lim)}", dict(sig, kind="scope-exceeds", side=side)))
+            toks.append([W(st["response"]), True])
+        else:
+            parent = toks[op["idx"]] if op["idx"] < len(toks) else None
+            if parent is None or not parent[1]:
+                if st.get("error") != "invalid_grant":
+                    v.append((f"history: refresh with an unknown / already used refresh token answered {st}", dict(sig, kind="dead-token-refreshed")))
+                    if "error" not in st:
+                        toks.append([W(st["response"]), True])
+                continue
+            if "error" in st:
+                if st["error"] != "invalid_scope" or not (op["requested"] and not parent[0] >= W(op["requested"])):
+                    v.append((f"history: refresh {op} of a token with scope {sorted(parent[0])} refused with {st}", dict(sig, kind="spurious-invalid-scope")))
+                continue
+            if op["requested"] and not parent[0] >= W(op["requested"]):
+                v.append((f"history: refresh {op} widening the refreshed token's scope {sorted(parent[0])} did not fail with invalid_scope", dict(sig, kind="refresh-widened")))
+            lim = parent[0] & W(op["allowed"]) & (W(op["requested"]) if op["requested"] else parent[0])
+            for side in ("response", "embedded"):
+                if st[side] is not None and not W(st[side]) <= lim:
+                    v.append((f"history: {side} scope {st[side]!r} after {op} exceeds the refreshed token's scope ∩ allowed ∩ requested = {sorted(lim)}", dict(sig, kind="scope-exceeds", side=side)))
+            parent[1] = False
+            toks.append([W(st["response"]), True])
+    return v
+
+
 def oracle(c, out):
+    if c["grant"] == "history":
+        return oracle_history(c, out)
     v = oracle_one(c, {k: x for k, x in out.items() if not k.startswith("differs:")})
     for fw in ("flask", "django"):
         if "differs:" + fw in out:
@@ -248,10 +333,12 @@ def oracle_one(c, out):
 
 
 def project(c, out):
-    return out
+    return {k: v for k, v in out.items() if not k.startswith("_")}
 
 
 def classify(c, out):
+    if c["grant"] == "history":
+        return "history/" + c["gen"] + "/" + ",".join(sorted({("issued" if "error" not in s else s["error"]) for s in out["steps"]}))
     return c["grant"] + "/" + c["gen"] + "/" + ("invalid_scope" if "error" in out else "issued" if out["response"] else "issued-empty")
 
 
